@@ -5,8 +5,10 @@ import RzilVerif.Gen.CallbacksGen
 # C15 — nothing in the source is silently dropped: translate it or raise
 
 Two layers.
-(1) The lowering model keeps every statement: one emitted effect per statement, in source order (`compileStmts_length`,
-    `compileStmtsH_count`), and the behaviour's final sequence drops nothing but `EMPTY()` members (`mkSeq_keeps`).
+(1) The lowering model keeps every statement: one emitted effect per statement that is not a bare value (`siV;`, `i++;`:
+    `bareCount`), in source order (`compileStmts_length`, `compileStmtsH_count`; `compileStmts_length_nobare`: one per
+    statement when there is no bare value), and the behaviour's final sequence drops nothing but `EMPTY()` members
+    (`mkSeq_keeps`).
     The real compiler's output is compared with this model on every run (C05/C06 ties), so for the supported dialect
     "every statement is represented" is carried by tree equality.
 (2) Which grammar productions reach the transformer WITHOUT a callback (Lark then hands a raw `Tree` upwards, and
@@ -18,8 +20,21 @@ namespace Rzil
 
 /-! ## (1) the model keeps every statement -/
 
+/-- statements that are a bare value (`siV;`, `i++;`, `f(x);`): they yield no effect of their own (in the hybrid model
+    their temporaries are carried to the enclosing sequence, `chk`) -/
+def bareCount : List CStmt → Nat
+  | [] => 0
+  | .exprstmt _ :: ss => bareCount ss + 1
+  | _ :: ss => bareCount ss
+
+theorem bareCount_cons (s : CStmt) (ss : List CStmt) :
+    bareCount (s :: ss) = bareCount ss + (if isBare s then 1 else 0) := by
+  cases s <;> rfl
+
+/-- one emitted effect per statement that is not a bare value (since bare PURE value statements `siV;` are inside the
+    pure model; for a behaviour without them `bareCount ss = 0`: `compileStmts_length_nobare`) -/
 theorem compileStmts_length (env : CEnv) : ∀ (ss : List CStmt) (st st' : TSt) (es : List ILEffect),
-    compileStmts env st ss = .ok (es, st') → es.length = ss.length
+    compileStmts env st ss = .ok (es, st') → es.length + bareCount ss = ss.length
   | [], st, st', es, h => by
       simp only [compileStmts, Except.ok.injEq, Prod.mk.injEq] at h
       rw [← h.1]; rfl
@@ -35,20 +50,18 @@ theorem compileStmts_length (env : CEnv) : ∀ (ss : List CStmt) (st st' : TSt) 
         · rename_i r2 hr2
           obtain ⟨es2, st2⟩ := r2
           simp only [Except.ok.injEq, Prod.mk.injEq] at h
-          rw [← h.1]
-          simp only [List.length_cons]
-          rw [compileStmts_length env ss st1 st2 es2 hr2]
+          rw [← h.1, bareCount_cons]
+          have ih := compileStmts_length env ss st1 st2 es2 hr2
+          cases hb : isBare s
+          · rw [consEff_eff hb]; simp only [List.length_cons, Bool.false_eq_true, ↓reduceIte]; omega
+          · rw [consEff_bare hb]; simp only [List.length_cons, ↓reduceIte]; omega
 
-/-- statements that are a bare value (`i++;`, `f(x);`): they yield no effect of their own, their temporaries are
-    carried to the enclosing sequence (`chk`) -/
-def bareCount : List CStmt → Nat
-  | [] => 0
-  | .exprstmt _ :: ss => bareCount ss + 1
-  | _ :: ss => bareCount ss
-
-def isBare : CStmt → Bool
-  | .exprstmt _ => true
-  | _ => false
+/-- the statement as it was before bare value statements entered the pure model: without them, one effect per
+    statement -/
+theorem compileStmts_length_nobare (env : CEnv) (ss : List CStmt) (st st' : TSt) (es : List ILEffect)
+    (hb : bareCount ss = 0) (h : compileStmts env st ss = .ok (es, st')) : es.length = ss.length := by
+  have := compileStmts_length env ss st st' es h
+  omega
 
 set_option maxHeartbeats 1600000 in
 theorem compileStmtH_effect_iff (env : CEnv) (st st' : HSt) (s : CStmt) (e : Option ILEffect) (b : List String)
